@@ -12,7 +12,7 @@ def missed(m):
 wave = {"A": 1, "B": 1, "C": 2, "D": 2, "E": 3, "F": 3, "G": 4, "H": 4}
 n = len(metas)
 nm = [m for m in metas if missed(m)]
-nc = [m for m in metas if not m["caught_by"]]
+nc = [m for m in metas if not m["caught_by"] and not m.get("neutralised_by")]
 per_wave = {w: sum(1 for m in nm if wave[m["id"][-1]] == w) for w in (1, 2, 3, 4)}
 out = []
 out.append("# Seeded property-breaking changes and which check catches them\n")
@@ -30,7 +30,9 @@ out.append("Ids: `<ID>-A`, `-B` = wave 1; `-C`, `-D` = wave 2; `-E`, `-F` = wave
 out.append("| seed | property | what it needs to manifest | caught by (runs actually made) | check as it stood when the seed arrived |")
 out.append("|---|---|---|---|---|")
 for m in metas:
-    if not m["caught_by"]:
+    if m.get("neutralised_by"):
+        c4, c5 = "- (no longer breaks the property since fix %s)" % m["neutralised_by"], "missed it at d<=2; caught at d=3 until the fix made the change harmless (see meta.json)"
+    elif not m["caught_by"]:
         c4, c5 = "**not caught**", "not caught - see meta.json"
     else:
         c4 = ", ".join(m["caught_by"])
